@@ -1677,6 +1677,10 @@ func (s *Str) concrete() (string, bool) {
 }
 
 func (x *Exec) callInit(in *ssa.Function) {
+	if os.Getenv("GOSYM_TRACEINIT") != "" {
+		t0 := time.Now()
+		defer func() { fmt.Fprintln(os.Stderr, "INIT", in.Pkg.Pkg.Path(), time.Since(t0)) }()
+	}
 	saved := x.curInit
 	x.curInit = in
 	x.call(in, nil, nil)
